@@ -503,6 +503,31 @@ def running_offset_emitters(ctx, P):
     ctx.floor(P + ':S17-6:floor', 'generators with a running header offset', n, 2)
 
 
+def legacy_header_self_consistent(ctx, P):
+    """A legacy-format header octet carries a two-bit length type that tells the reader how many length octets follow.  The
+    serialiser picks the number of octets from the VALUE; the type bits it writes must be derived from the same value (old_fixed_type),
+    not taken as parsed — a header read from a non-minimal encoding (type 1, value 5) would otherwise be written as type 1 followed
+    by ONE octet."""
+    b = ctx.body('<packet::header::PacketHeader as ser::Serialize>::to_writer')
+    if b is None:
+        return
+    dom = b.dominators()
+    first = []
+    for i, t in b.calls(r'WriteBytesExt::write_u8$'):
+        ac = arm_context_(b, i, dom)
+        if ('PacketHeader', ['Old']) in ac and ('PacketLength', ['Fixed']) in ac and has_origin(b.operand_origins(t['args'][1]), r'call:.*OldPacketHeader::into_bits$'):
+            first.append((i, t))
+    good = bool(first) and all(has_origin(b.operand_origins(t['args'][1]), r'call:packet::header::old_fixed_type$') for i, t in first)
+    ctx.check(P + ':S17-7:legacy-header-type-from-value', 'R-sib', 'PacketHeader::to_writer (legacy, fixed length) writes length-type bits computed from the length value it then encodes',
+              good, function=b.path, site=site(b, first[0][0]) if first else None,
+              missing=None if good else 'the header octet is written as parsed while the number of length octets follows the value: [0x89, 0x00, 0x05] is re-serialised as [0x89, 0x05]')
+
+
+def arm_context_(b, i, dom):
+    from rules.common import arm_context
+    return [(a, vs) for a, vs in arm_context(b, i, dom)]
+
+
 def s17_4(ctx, P):
     b = ctx.body('packet::packet_sum::Packet::from_reader')
     if b:
@@ -516,6 +541,7 @@ def run(ctx):
     P = 'C17'
     partial_emitters(ctx, P)
     running_offset_emitters(ctx, P)
+    legacy_header_self_consistent(ctx, P)
     # re-serialised packets get a header derived from the bytes that follow (shared with C05)
     from rules import c05
     c05.header_derivation(ctx, P)
